@@ -1129,12 +1129,15 @@ REGEX_PROBES = {
         ("%F?[105]", True, "105"), ("%t", True, None),
         ("%L[0]", True, "0"), ("%L[10]", True, "10"), ("%L?[2]", True, "2"), ("%L?[31]", True, "31"),
         ("%R[0]", True, "0"), ("%R[10]", True, "10"), ("%R?[2]", True, "2"), ("%R?[31]", True, "31"),
+        ("%F[20]", True, "20"), ("%F[9]", True, "9"), ("%L[100]", True, "100"), ("%R?[90]", True, "90"),
     ],
     "vibrato::trainer::feature_rewriter::FeatureRewriterBuilder::new": [
         ("$1", True, "1"), ("$12", True, "12"), ("$", False, None), ("a$1", False, None), ("$1x", False, None),
+        ("$10", True, "10"), ("$20", True, "20"), ("$105", True, "105"), ("$9", True, "9"),
     ],
     "vibrato::mecab::generate_bigram_info": [
         ("12 abc,def", True, "12"), ("0 BOS/EOS", True, "0"), ("-1.5\tB00:x/y", True, None),
+        ("10 abc", True, "10"), ("309 x,y", True, "309"), ("-10.05\tB01:x/y", True, None),
         ("0.25\tU1:a", True, None),
     ],
 }
@@ -1189,6 +1192,75 @@ def regex_grammar(ctx, only=None):
                    % (probe, "matched in full" if want else "rejected", pats, p.split("::")[-2],
                       (" with the number %s captured whole" % digits) if digits else ""))
     ctx.floor("REGEX", "grammar probes", total, 4)
+
+
+TRIMS = ("trim", "trim_start", "trim_end", "trim_matches", "trim_start_matches", "trim_end_matches",
+         "trim_ascii", "trim_ascii_start", "trim_ascii_end", "strip_suffix", "strip_prefix", "replace",
+         "to_lowercase", "to_uppercase", "to_ascii_lowercase", "to_ascii_uppercase")
+
+
+def rawcost(ctx):
+    """RAWLINE (C07, C16): a bigram.cost line is `right feature / left feature TAB cost`, and the
+    feature texts are compared byte for byte with the cells of bigram.right/left - a feature may
+    begin or end with white space (the ideographic space U+3000 is a feature value of IPADIC).
+    RawConnectorBuilder::parse_cost therefore splits the line it is given, not an edited copy."""
+    from r_rewrite import _chain_to_source
+    crate = ctx.facts("A").lib
+    E = Effects(crate)
+    p = "vibrato::dictionary::connector::raw_connector::RawConnectorBuilder::parse_cost"
+    f = crate.fns.get(p)
+    if f is None or not f.body:
+        raise EngineError("RAWLINE: anchor lost: %s" % p)
+    n = 0
+    for q in [p] + sorted(x for x in crate.fns if x.startswith(p + "::{closure") and crate.fns[x].body):
+        fa = E.fa(q)
+        for b, t in fa.calls():
+            nm = {strip_generics(x).rsplit("::", 1)[-1] for x in callee_paths(t)}
+            if not (nm & {"split", "splitn", "rsplit", "rsplitn", "split_once", "rsplit_once", "split_terminator"}) or not t["args"]:
+                continue
+            n += 1
+            ch = _chain_to_source(fa, t["args"][0])
+            edits = [c for c in ch if c in TRIMS]
+            ctx.ob("RAWLINE", "%s|split|%d" % (p, n), not edits, fa.loc(b),
+                   "the text that is split is the line (or a part of it) as it was read" if not edits else
+                   "parse_cost edits the line with %s before it is split: white space at the edge of a "
+                   "feature text is lost, the feature no longer equals the cell of bigram.right/left it "
+                   "belongs to (or collapses to the empty BOS/EOS feature) and its costs go to the wrong "
+                   "pairs or are dropped" % ", ".join(edits))
+    ctx.floor("RAWLINE", "splits in parse_cost", n, 2)
+
+
+def trimconfig(ctx):
+    """CONFLINE (C18, C17, C20): feature.def and rewrite.def are read line by line; a line is
+    stripped of white space on BOTH sides before it is matched against the section headers, the
+    `UNIGRAM ` / `BIGRAM ` prefixes and the rule columns. Only the indentation being removed
+    leaves a trailing blank (or the CR of a CRLF file) inside the template or the rewrite, which
+    then never equals the text it is compared with."""
+    from r_rewrite import _chain_to_source
+    crate = ctx.facts("A").lib
+    E = Effects(crate)
+    n = 0
+    for fn in ("parse_feature_config", "parse_rewrite_config"):
+        p = "vibrato::trainer::config::TrainerConfig::" + fn
+        f = crate.fns.get(p)
+        if f is None or not f.body:
+            raise EngineError("CONFLINE: anchor lost: %s" % p)
+        fa = E.fa(p)
+        applied = set()
+        for b, t in fa.calls():
+            nm = {strip_generics(x).rsplit("::", 1)[-1] for x in callee_paths(t)}
+            if nm & {"trim", "trim_start", "trim_end", "trim_ascii", "trim_ascii_start", "trim_ascii_end"} and t["args"]:
+                ch = _chain_to_source(fa, t["args"][0])
+                if "next" in ch or "lines" in ch or "branch" in ch or "unwrap" in ch:
+                    applied |= nm
+        both = bool(applied & {"trim", "trim_ascii"}) or \
+            (bool(applied & {"trim_start", "trim_ascii_start"}) and bool(applied & {"trim_end", "trim_ascii_end"}))
+        n += 1
+        ctx.ob("CONFLINE", "%s|line-trimmed-on-both-sides" % p, both, "%s:%s" % (f.file, f.line),
+               "%s strips a line on both sides before matching it" % fn if both else
+               "%s strips a line with %s only: a trailing blank or CR stays inside the template / rule and "
+               "the text never equals what it is compared with" % (fn, sorted(applied) or "nothing"))
+    ctx.floor("CONFLINE", "config line readers", n, 2)
 
 
 def regex_trainer(ctx):
